@@ -88,18 +88,23 @@ def run(ctx):
             os.remove(r2["out_path"])
     os.remove(res["out_path"])
     jobs = max(1, NCPU - 2)
-    parts = [open(os.path.join(ctx.work, "pairs.%d" % i), "w") for i in range(jobs)]
+    # the thorough tier records long searches: many small traces (each is loaded whole by the validator)
+    nparts = jobs if quick else jobs * 6
+    parts = [open(os.path.join(ctx.work, "pairs.%d" % i), "w") for i in range(nparts)]
+    # quick: a third of the generated pairs; thorough: at most about 12000 pairs (an even sample of what was generated)
+    stride = 3 if quick else max(1, -(-n // 12000))
+    ctx.cov["steps"].append({"step": "pairs kept for searching", "generated": n, "stride": stride})
     for k, line in enumerate(open(keep)):
-        if quick and k % 3 != ctx.seed % 3:
+        if k % stride != ctx.seed % stride:
             continue
-        parts[k % jobs].write(line)
+        parts[(k // stride) % nparts].write(line)
     for p in parts:
         p.close()
 
     def one(a):
         i, p = a
         tr = os.path.join(ctx.work, "mirror-%d.ndjson" % i)
-        h = ctx.harness(["replay-search", "--mirror", "--polls", 2500 if quick else 60000, "--out", tr], stdin_path=p.name, timeout=3000)
+        h = ctx.harness(["replay-search", "--mirror", "--polls", 2500 if quick else 20000, "--out", tr], stdin_path=p.name, timeout=3000)
         nl = validate_search_trace(ctx, tr, "mirror-%d" % i) if os.path.getsize(tr) else 0
         return h, tr, nl
 
